@@ -1,5 +1,4 @@
-TECHNIQUE = ('bounded symbolic execution of LLVM IR lowered to C: CBMC/SAT (cadical), sequential harness with a '
-             'symbolic DAG shape, ghost run log checked against the edge list')
+TECHNIQUE = ('bounded symbolic execution of LLVM IR lowered to C: CBMC/SAT (cadical), sequential harness, one literal DAG shape per instance, ghost run log checked against the edge list')
 ASSUMPTIONS = [
     'a freshly built graph is armed with setAllNodesIncomplete() before its first execution (what every test, example '
     'and benchmark of the repo does; the Node constructor leaves the predecessor counter at 0)',
@@ -48,8 +47,17 @@ def _shape(k, tiers, rearm, bshape=None):
                                  'VF_REARM': rearm}})
 
 
-# quick: the four shapes with two edges or more; thorough: all 8 shapes incl. re-arming, two BiPropGraph shapes
-INSTANCES = ([_shape(k, ['quick'], 0) for k in (3, 5, 6, 7)] +
+# quick: chain, fan-in, triangle; thorough: all 8 shapes incl. re-arming, two BiPropGraph shapes
+INSTANCES = ([_shape(k, ['quick'], 0) for k in (5, 6, 7)] +
              [_shape(k, ['thorough'], 1) for k in range(8)])
 # not part of the check (time out, see NOTES.md): symbolic 3-bit shape selector, 4 nodes, BiPropGraph shapes
 _REFERENCE = [_shape(7, ['thorough'], 1, 5), _shape(6, ['thorough'], 1, 6)]
+
+# Honest level: no symbolic INPUT survives the time budget for this code (libstdc++ containers, type-erased
+# functors): every instance is the real code symbolically executed by CBMC on ONE literal graph program
+# (shape, and for C31 the marked subset, are literals); the instances enumerate the shapes.  That is
+# exploration of a finite family of concrete programs, not a solver verdict over a symbolic input space.
+CATEGORY = 'exploration'
+LEVEL = ('CBMC symbolic execution of the real graph / executor code on literal 3-node DAG programs, one instance per shape '
+         '(and per marked subset for C31): enumeration of a small finite family, every assertion incl. memory safety decided '
+         'by the solver per program. Weaker than the other checks: no symbolic inputs.')
